@@ -68,6 +68,7 @@ CEX_MAP = [
     (r'for Product<\(T0,T1\)>', ['laws_product2', 'bounded_product2']),
     (r'for Product<\(T0,T1,T2\)>', ['laws_product3', 'assoc_product3', 'bounded_product3']),
     (r'for Product<\(T0,.*T10\)>', ['laws_product11', 'bounded_product11']),
+    (r'for Product<\[T;N\]>', ['agrees_array2', 'agrees_array3', 'agrees_array1', 'agrees_array4', 'agrees_array0']),
     (r'for\(T0,\)', ['laws_tuple1', 'bounded_tuple1']),
     (r'for\(T0,T1\)', ['laws_tuple2', 'bounded_tuple2']),
     (r'for\(T0,T1,T2\)', ['laws_tuple3', 'bounded_tuple3']),
